@@ -9,6 +9,7 @@ import (
 // Ctx holds the SMT declarations and definitions of one verification unit
 // (one function under contract or one lemma).
 type Ctx struct {
+	usesStrFirst bool
 	typeLines []string // sorts and datatypes
 	lines     []string // declare-fun / define-fun in creation order
 	declared  map[string]string
@@ -154,6 +155,10 @@ func (c *Ctx) StrAxioms() []*Term {
 	for _, s := range c.strOrder {
 		t := c.strLits[s]
 		out = append(out, Eq(App("str_len", SInt, t), IntLit(int64(len(s)))))
+		if len(s) > 0 && c.usesStrFirst {
+			// the first byte of a literal (only when some formatted text's first byte is spoken about)
+			out = append(out, Eq(c.UF("str_first", SInt, t), IntLit(int64(s[0]))))
+		}
 		lits = append(lits, t)
 	}
 	if len(lits) > 1 {
